@@ -440,14 +440,14 @@ NOT_CLAIMED = {}
 PROPS = {
     "C01": dict(
         lean="AnyDB.Props.C01",
-        lean_extra=["AnyDB.Props.C01Run"],
+        lean_extra=["AnyDB.Props.C01Run", "AnyDB.Props.C01Reopen"],
         runs=[
             Run("rawdb", "clean", [], (240, 50), (4000, 200), proj_c01, ["C01", "panic"], rawdb_features),
             Run("rawdb", "refusals", ["--malformed"], (80, 40), (1500, 120), proj_c01, ["C01", "panic"], rawdb_features),
         ],
         rule=RAWDB_RULE,
         assumptions=["page cache coherent with the shared mapping (no crash in this property)"],
-        level_text="Lean 4 REFINEMENT theorem over the executable model of rawdb, for every history (Props/C01Run.lean): the reference of the property is a list of named, independent byte vectors (refStep: create adds an empty vector, the three writes splice into one vector or are refused beyond its end, truncate cuts one, rename changes one name, remove drops one, retain drops those not kept, everything else changes nothing); C01_step: from ANY model state that shows a reference r and satisfies the invariant (C02's layout invariant + contents inside reservation and file), every request answered with a success or an API refusal leads to a state that shows refStep r op — name, length and every byte of every region, all four placement paths of write_with (fits / extend last / expand into adjacent hole / relocate with copy) reduced to one lemma because the extent AFTER the operation is apart from every other live region (linv_writeWith), hole punching hits only tails beyond ceil_page(len) and free extents; C01_run_partial lifts it by induction to every history from the empty database without reopen whose answers are successes or API refusals, and C01_history_partial weakens that hypothesis to the observable one — no request panics or answers RegionSizeOverflow — because under the invariant the internal error answers HoleTooSmall, OverlappingCopyRanges, RegionIndexMismatch, InvariantViolation cannot occur (Lemmas/RegionErrors.lean); C01_isolated: in the reference a request changes no entry but the one it names. Underneath: the byte-level laws of Props/C01.lean (read-own-write, frame, copy, growth, punching). Not proved in Lean: reopen after flush (needs the invariant tying the metadata file to the slots) and panic-freedom (the write_to_mmap bound needs every extent inside the file) — both are validated by the lock-step correspondence: real crate = compiled model = independent reference byte vectors after every request, including reopen after flush.",
+        level_text="Lean 4 REFINEMENT theorem over the executable model of rawdb, for every history (Props/C01Run.lean): the reference of the property is a list of named, independent byte vectors (refStep: create adds an empty vector, the three writes splice into one vector or are refused beyond its end, truncate cuts one, rename changes one name, remove drops one, retain drops those not kept, everything else changes nothing); C01_step: from ANY model state that shows a reference r and satisfies the invariant (C02's layout invariant + contents inside reservation and file), every request answered with a success or an API refusal leads to a state that shows refStep r op — name, length and every byte of every region, all four placement paths of write_with (fits / extend last / expand into adjacent hole / relocate with copy) reduced to one lemma because the extent AFTER the operation is apart from every other live region (linv_writeWith), hole punching hits only tails beyond ceil_page(len) and free extents; C01_run_partial lifts it by induction to every history from the empty database without reopen whose answers are successes or API refusals, and C01_history_partial weakens that hypothesis to the observable one — no request panics or answers RegionSizeOverflow — because under the invariant the internal error answers HoleTooSmall, OverlappingCopyRanges, RegionIndexMismatch, InvariantViolation cannot occur (Lemmas/RegionErrors.lean); C01_isolated: in the reference a request changes no entry but the one it names. Underneath: the byte-level laws of Props/C01.lean (read-own-write, frame, copy, growth, punching). Reopen (Props/C01Reopen.lean, Lemmas/RegionFile.lean): the invariant FInv — the regions metadata file agrees with the slot table: no image for a freed slot, the slot's metadata for every live slot that was written at least once — is preserved by every operation (C01_file_agrees), and C01_reopen_partial: after every such history ending in a state where every live region has held data or been renamed, dropping all handles and opening the directory again (any min_len) shows in every slot exactly the reference's name, length and bytes, and removed regions stay absent — provided Layout::from does not panic. Not proved in Lean: that Layout::from cannot panic and the layout invariant of the reopened state (histories that continue after a reopen), and panic-freedom in general (the write_to_mmap bound needs every extent inside the file) — these are validated by the lock-step correspondence: real crate = compiled model = independent reference byte vectors after every request, including reopen after flush.",
         level_note="Trusted: Lean kernel + {propext, Classical.choice, Quot.sound}; the hand-written model Model/Rawdb.lean (tied to /repo by the differential run and tools/extract.py); harness/driver glue; OS page cache coherent with the mapping. Modelled rather than verified: all of rawdb (no Rust line is verified directly).",
         technique="Lean 4 proof over an executable model of rawdb + lock-step correspondence with the real crate and a reference byte-vector oracle",
     ),
